@@ -2,6 +2,8 @@
 """Classic mutation operators on the pacti sources, to measure what the checks detect.
 
     mutate.py list                      -> prints the number of candidate mutants per file
+    mutate.py recheck results.jsonl K.. -> re-runs the recorded mutants number K.. (1-based lines of the file) against
+                                           the current checks and prints the outcome (nothing is written)
     mutate.py run N [seed] [out.jsonl]  -> samples N mutants; for each: scratch worktree of /repo, write the mutated
                                            file, run the repository suite (a mutant the tests kill is skipped), run
                                            the quick checks mapped to the mutated function with PACTI_VERIF_SRC,
@@ -265,11 +267,19 @@ def main():
     if cmd == "list":
         print("total", len(allsites))
         return 0
-    n = int(sys.argv[2])
-    seed = int(sys.argv[3]) if len(sys.argv) > 3 else 0
-    out = sys.argv[4] if len(sys.argv) > 4 else os.path.join(VERIF, "mutation_results.jsonl")
+    if cmd == "recheck":
+        recs = [json.loads(ln) for ln in open(sys.argv[2])]
+        sample = [{k: recs[int(i) - 1][k] for k in ("line", "col", "kind", "detail", "func", "type", "file")}
+                  for i in sys.argv[3:]]
+        out = os.devnull
+    else:
+        sample = None
+    n = int(sys.argv[2]) if sample is None else len(sample)
+    seed = int(sys.argv[3]) if len(sys.argv) > 3 and sample is None else 0
+    out = out if sample is not None else sys.argv[4] if len(sys.argv) > 4 else os.path.join(VERIF, "mutation_results.jsonl")
     rng = random.Random(seed)
-    sample = rng.sample(allsites, min(n, len(allsites)))
+    if sample is None:
+        sample = rng.sample(allsites, min(n, len(allsites)))
     for k, site in enumerate(sample):
         tree = tempfile.mkdtemp(prefix="mw_", dir="/tmp")
         os.rmdir(tree)
